@@ -304,7 +304,7 @@ func runC10Latched(blocks int, ops []c10WriterOp, parkAt int, styles []int, same
 	case <-wdone:
 		// fewer mid-apply points than parkAt: nothing to observe
 		return "", false, 0, 0
-	case <-time.After(10 * time.Second):
+	case <-after(10 * time.Second):
 		return "writer did not reach a yield point within 10 s (deadlock?)", false, 0, 0
 	}
 	// readers: may-block steps
@@ -348,13 +348,13 @@ func runC10Latched(blocks int, ops []c10WriterOp, parkAt int, styles []int, same
 	close(resume)
 	select {
 	case <-wdone:
-	case <-time.After(10 * time.Second):
+	case <-after(10 * time.Second):
 		return "writer did not finish within 10 s after being resumed (deadlock?)", parkedMid, readerBlocked, readerThrough
 	}
 	for _, r := range readers {
 		select {
 		case <-r.done:
-		case <-time.After(10 * time.Second):
+		case <-after(10 * time.Second):
 			return fmt.Sprintf("a %s reader did not finish within 10 s after the writer released the latch (deadlock?)", c10StyleNames[r.style]), parkedMid, readerBlocked, readerThrough
 		}
 		if r.obs.Bad != "" {
@@ -579,7 +579,7 @@ func TestC10Parallel(t *testing.T) {
 		go func() { wg.Wait(); close(finished) }()
 		select {
 		case <-finished:
-		case <-time.After(30 * time.Second):
+		case <-after(30 * time.Second):
 			mu.Lock()
 			msg := bad
 			mu.Unlock()
